@@ -27,7 +27,8 @@ VALID = ['a', 'A', 'a.b', 'readme.txt', 'README.TXT', 'Readme.Txt', 'readme.TXT'
          'a.b.c.d', 'many   spaces in name', 'tab-less name', 'ünïcödé.txt', 'ß', 'ÿ.ÿ', 'Grüße an alle.doc',
          '日本語.txt', 'Ελληνικά αρχεία', 'кириллица.bin', 'emoji \U0001F600.bin', '\U0001F600' * 127, 'a\U0001F600' * 85,
          "it's (ok) #1 & co.$$$", 'x+y=z,ok;[1]', 'café', 'CAFÉ', 'file.', 'é', '~', 'a~1', 'ABCDEF~1.TXT', 'abcdef~1',
-         'LONGFI~1.TXT', 'longfi~2.txt', 'trailing.dot.x', 'UPPER.lower', 'lower.UPPER', '12345678.123', '123456789.12', 'a b.c d']
+         'LONGFI~1.TXT', 'longfi~2.txt', 'trailing.dot.x', 'UPPER.lower', 'lower.UPPER', '12345678.123', '123456789.12', 'a b.c d',
+         'Àb.txt', 'ÉCOLE.txt', 'Öl.TXT', 'þORN.Ñu', 'ÆÐ×Þ.dat', 'mixÉd.É']
 VALID = [n for n in VALID if not n.endswith(('.', ' '))]
 INVALID = ['', ' ', 'a*b', 'a?b', 'a/b\\c', 'a\\b', 'a:b', 'a<b', 'a>b', 'a|b', 'a"b', 'trailing ', 'trailing.', ' leading',
            'n' * 256, 'new\nline', 'tab\tname', 'nul\0name', 'abc\n', '\U0001F600' * 128]
@@ -74,7 +75,7 @@ def check_lfn_form(recs, idx, name, alias11):
     return None
 
 
-def pure83(name):
+def pure83(name, latin1=False):
     """does the name fit 8.3 with optional all-lower base and/or extension (so no long-name records are needed)?"""
     if name in ('.', '..') or name.startswith('.'):
         return None
@@ -82,6 +83,8 @@ def pure83(name):
     if name.count('.') > 1:
         return None
     ok = set("ABCDEFGHIJKLMNOPQRSTUVWXYZ0123456789!#$%&'()@^_`{}~-")
+    if latin1:      # characters of the volume's code page (iso-8859-1) that are their own upper case
+        ok |= {chr(c) for c in range(0x80, 0x100) if chr(c).upper() == chr(c)}
     def part(s, n):
         if len(s) > n or (n == 8 and not s):
             return None
@@ -167,6 +170,14 @@ def run(ctx, build):
                 if p83 is not None:
                     if me['nlfn'] != 0 or (recs[idx][12] & 0x18) != p83:
                         ctx.violation('fs.names/pure-8.3-uses-lfn', f'{name!r} is pure 8.3 but was stored with {me["nlfn"]} long-name records / case flags {recs[idx][12]:#x} (expected {p83:#x})', info)
+                        return False
+                elif me['nlfn'] == 0:
+                    # no long-name records although the name is not plain-ASCII 8.3: legitimate exactly when the name
+                    # is 8.3 in the volume's code page (iso-8859-1) with all-lower parts flagged, so that the reader's
+                    # lower-casing gives the name back (the listing comparison above has already checked that)
+                    p83l = pure83(name, latin1=True)
+                    if p83l is None or (recs[idx][12] & 0x18) != p83l:
+                        ctx.violation('fs.names/lfn-missing', f'{name!r} is not an 8.3 name but was stored without long-name records (case flags {recs[idx][12]:#x})', info)
                         return False
                 else:
                     err = check_lfn_form(recs, idx, name, alias11)
@@ -259,7 +270,7 @@ def run(ctx, build):
 def model_correspondence(ctx):
     """differential runs of the extracted Coq model of name handling against the real FatDirectory"""
     import fat_names_corr
-    fat_names_corr.run(ctx)
+    lib.corr_run(ctx, fat_names_corr)
     SPEC['theorems'].update(getattr(fat_names_corr, 'SPEC_THEOREMS', {}))
     SPEC['trusted_base'].extend(x for x in getattr(fat_names_corr, 'TRUSTED', []) if x not in SPEC['trusted_base'])
 
